@@ -506,3 +506,52 @@ Definition no_fuel (tr : list (list obs)) : bool :=
 
 Definition c14s_ok {C : Type} (ops : list (op C)) (tr : list (list obs)) : bool :=
   no_fuel tr && contract_ok (fun _ : response => true) (polls_of ops tr).
+
+(* the same logs WITHOUT the stops_after_error boundary (every poll, also those after an error):
+   the contract is false of this list for the code and the model (ServerWitness.e1_witness) *)
+Fixpoint polls_all {C : Type} (ops : list (op C)) (tr : list (list obs))
+  : list (list call * bool) :=
+  match ops, tr with
+  | OPoll :: ops', l :: tr' =>
+    match l with
+    | OCalls cs :: r :: _ =>
+      match r with
+      | OPending => (cs, true) :: polls_all ops' tr'
+      | _ => (cs, false) :: polls_all ops' tr'
+      end
+    | _ => polls_all ops' tr'
+    end
+  | _ :: ops', _ :: tr' => polls_all ops' tr'
+  | _, _ => []
+  end.
+
+(* C18, server half: the request handed to the application carries the trace id AND the sampling
+   decision of the request that was read (the script's trace number is 2 * trace_id + sampled bit;
+   the span id is drawn at the server and never observed).  In every observation list a yield
+   OYield k id dl tr body  comes after an  OCalls cs  with  (id, dl, tr, body)  the LAST request the
+   transport delivered in cs, and at most one yield follows one OCalls. *)
+Fixpoint last_req (cs : list call) (acc : option (N * N * N * N)) : option (N * N * N * N) :=
+  match cs with
+  | [] => acc
+  | CNext (RItem (MReq id dl t b)) :: r => last_req r (Some (id, dl, t, b))
+  | _ :: r => last_req r acc
+  end.
+
+Definition is_yield (e : obs) : bool := match e with OYield _ _ _ _ _ => true | _ => false end.
+
+(* cur = the last request read in the most recent OCalls of this list, not yet handed out *)
+Fixpoint c18_scan (cur : option (N * N * N * N)) (l : list obs) : bool :=
+  match l with
+  | [] => true
+  | OCalls cs :: r => c18_scan (last_req cs None) r
+  | OYield _ id dl t b :: r =>
+    match cur with
+    | Some (i, d, t', b') => N.eqb i id && N.eqb d dl && N.eqb t' t && N.eqb b' b
+    | None => false
+    end && c18_scan None r
+  | _ :: r => c18_scan cur r
+  end.
+
+Definition c18_poll (l : list obs) : bool := c18_scan None l.
+
+Definition c18s_ok (tr : list (list obs)) : bool := no_fuel tr && forallb c18_poll tr.
